@@ -95,7 +95,8 @@ NETS = [('http', 'falconframework.org', 80, '', '127.0.0.1', '1.1'),
 OPTS = [(s, k, c) for s in (False, True) for k in (True, False) for c in (False, True)]   # index 0 = falcon defaults
 OPS = ['digest', 'media', 'text', 'data201', 'media-resp', 'stream-len', 'stream-nolen', 'status204', 'status204-custom',
        'err404', 'err400-headers', 'err-invalid-header', 'err422', 'err405', 'redir301', 'redir302', 'redir303',
-       'redir307', 'redir308', 'httpstatus', 'cookies', 'multi-header', 'boom', 'resp-attrs', 'partial', 'noroute']
+       'redir307', 'redir308', 'httpstatus', 'cookies', 'multi-header', 'boom', 'resp-attrs', 'partial', 'noroute',
+       'empty-data-media', 'empty-text-data', 'empty-media-stream']
 
 
 def names(seed):
@@ -133,6 +134,8 @@ def header_sets(nm):
         [('Host', 'other.example:8081')],
         [('Range', 'bytes=x'), ('If-Modified-Since', 'garbage'), ('If-Match', 'nonsense'), ('Date', 'x'), ('X-Int', 'x')],
         [('Range', 'items=1-2, 5-6'), ('Forwarded', 'garbage;;'), ('Accept', 'nonsense')],
+        # a repeated header whose FIRST occurrence is empty (truthiness vs membership when folding)
+        [(h, ''), (h, 'beta'), ('X-Forwarded-For', ''), ('X-Forwarded-For', '203.0.113.9')],
     ]
 
 
@@ -249,6 +252,21 @@ def _logic(op, nm, is_async, req, resp, kw):
         else:
             resp.stream = stream
         resp.content_type = 'application/octet-stream'
+    elif op == 'empty-data-media':
+        # an explicitly EMPTY higher-precedence body source still wins (text > data > media > stream)
+        resp.media = {'m': 'must not be sent'}
+        resp.data = b''
+    elif op == 'empty-text-data':
+        resp.data = b'must not be sent'
+        resp.text = ''
+    elif op == 'empty-media-stream':
+        resp.text = ''
+        if is_async:
+            async def agen2():
+                yield b'must not be sent'
+            resp.stream = agen2()
+        else:
+            resp.stream = iter([b'must not be sent'])
     elif op == 'status204':
         resp.status = 204
         resp.text = 'ignored'
